@@ -111,8 +111,9 @@ pub fn local_to_absolute_addr(
     index: u16,
     num_proc_locals: u16,
 ) -> Result<(), AssemblyError> {
+    // the upper bound is exclusive so that a procedure without locals rejects all indexes
+    validate_param(index, 0..num_proc_locals)?;
     let max = num_proc_locals - 1;
-    validate_param(index, 0..=max)?;
 
     push_felt(span, -Felt::from(max - index));
     span.push_op(FmpAdd);
